@@ -244,7 +244,7 @@ def build_driver(pid):
     low = pid.lower()
     ext = os.path.join(COQ, "extract", "Extract%s.v" % pid)
     # the extraction file depends only on Model/ (and Spec/) files; make sure they are compiled
-    deps = re.findall(r"^\s*From SV Require Import (.*?)\.\s*$", open(ext).read(), re.M)
+    deps = re.findall(r"^\s*From SV Require(?: Import)? (.*?)\.\s*$", open(ext).read(), re.M)
     targets = []
     for d in deps:
         for mod in d.split():
@@ -254,8 +254,10 @@ def build_driver(pid):
         rc, out = sh(["make", "-j8"] + targets, cwd=COQ, timeout=3000)
     if rc != 0:
         raise RuntimeError("model build failed:\n" + out[-3000:])
+    gen_dir = os.path.join(COQ, "theories", "Generated")
     srcs = [ext, os.path.join(OCAML, "common.ml"), os.path.join(OCAML, "drv_%s.ml" % low)] + \
-           [os.path.join(COQ, t[:-1]) for t in targets]
+           [os.path.join(COQ, t[:-1]) for t in targets] + \
+           [os.path.join(gen_dir, g) for g in sorted(os.listdir(gen_dir)) if g.endswith(".v")]   # the models read them
     exe = os.path.join(BUILD, "drv_%s" % low)
     h = hashlib.sha256()
     for s in srcs:
